@@ -704,6 +704,12 @@ func (c *Ctx) c16Accesses() {
 						if isCtor || inConstructor(ev) {
 							continue
 						}
+						// a field of the same name that now holds a helper struct owning the guarded data AND its lock (a key-lock table
+						// with its own mutex) is a container: selecting through it touches nothing guarded — the data inside is judged
+						// under its re-identified name
+						if st, ok := ev.Field.Type().Underlying().(*types.Struct); ok && structHasLock(st) {
+							continue
+						}
 						base := strings.TrimSuffix(ev.Path, "."+ev.Field.Name())
 						lock := base
 						switch {
@@ -1081,4 +1087,14 @@ func (c *Ctx) c16PublishBeforeStart() {
 			r.OK("R16.7", ctor, fmt.Sprintf("fields read by the janitor callbacks (%d) are all written before NewTrait", len(readBy)))
 		}
 	}
+}
+
+func structHasLock(st *types.Struct) bool {
+	for i := 0; i < st.NumFields(); i++ {
+		switch types.TypeString(st.Field(i).Type(), nil) {
+		case "sync.Mutex", "sync.RWMutex":
+			return true
+		}
+	}
+	return false
 }
